@@ -22,11 +22,14 @@
 (*           cnvlib/call.py case for case.  Known defects of the code are *named switches* below.        *)
 EXTENDS Naturals, Integers, Sequences, FiniteSets, SequencesExt, FiniteSetsExt, Functions, TLC, Num
 
-(* ---- the code as it is today (flip a switch when the corresponding repair is committed) ------------ *)
-CodeBoostAlignedByPosition == FALSE   \* tumor_boost() returns a 0..n-1 indexed Series that pandas aligns by *label*
-CodeSingletonThroughSummary == FALSE  \* into_ranges hands a 1-row group to the caller without calling summary_func
-CodeHetFallbackToAll == TRUE          \* heterozygous() returns *all* rows when no row is heterozygous
-CodeDepthGuardOnTumour == TRUE        \* min_depth is skipped when no *tumour* depth is non-zero
+(* ---- the code as it is today: named switches for defects found by this check ---------------------- *)
+(* (TRUE / FALSE as committed in /repo; the other value is the behaviour before the repair named)       *)
+CodeBoostAlignedByPosition == TRUE    \* 0d7719f: tumor_boost() carries the rows' index (before: a 0..n-1 Series aligned by *label*)
+CodePreMirrorsExplicitSide == TRUE    \* 142cc54: baf_by_ranges mirrors up front when above_half is given (before: a 1-row
+                                      \*          group came back raw, because into_ranges does not call summary_func on it)
+CodeDepthGuardOnFilterColumn == TRUE  \* bb2305d: min_depth is skipped only when the filtered depth column is all missing
+                                      \*          (before: whenever no *tumour* depth was non-zero after filling with 0)
+CodeHetFallbackToAll == TRUE          \* OPEN finding: heterozygous() returns *all* rows when no row is heterozygous
 
 Idx(s) == 1..Len(s)
 Max2(a, b) == IF a < b THEN b ELSE a
@@ -140,8 +143,11 @@ SortRows(t) == FoldLeft(RowInsertBack, <<>>, t)
 ReadRowsA(vcf, sid, nid, mind, skipsom, skiprej) ==
     LET kept == SelectSeq([k \in Idx(vcf.recs) |-> k], LAMBDA k : ~(skiprej /\ BadFilter(vcf.recs[k])))
         t0 == [j \in Idx(kept) |-> ARow(vcf, kept[j], sid, nid)]
-        guard == IF CodeDepthGuardOnTumour THEN \E j \in Idx(t0) : t0[j].dp # 0      \* table["depth"].any()
-                 ELSE TRUE
+        keyname == IF nid # "" THEN nid ELSE sid
+        rawkey(k) == IF keyname = "" THEN 0 ELSE ADepth(vcf.recs[k], CallOf(vcf, vcf.recs[k], keyname))
+        guard == IF CodeDepthGuardOnFilterColumn
+                 THEN \E j \in Idx(kept) : rawkey(kept[j]) >= 0                  \* table[dkey].notna().any(), before fillna
+                 ELSE \E j \in Idx(t0) : t0[j].dp # 0                            \* table["depth"].any()
         t1 == IF mind > 0 /\ guard
               THEN SelectSeq(t0, LAMBDA r : (IF nid # "" THEN r.ndp ELSE r.dp) >= mind)
               ELSE t0
@@ -219,7 +225,7 @@ MirrorMedian(qs, up) == LET m == RMedian(Shifts(qs)) IN IF up THEN RAdd(RHalf, m
 (* series2value + summarize on the values of one range *)
 GroupBafA(vals, above) ==
     IF vals = <<>> THEN ANaN
-    ELSE IF Len(vals) = 1 /\ ~CodeSingletonThroughSummary THEN vals[1]   \* ser.iat[0]: not mirrored at all
+    ELSE IF Len(vals) = 1 THEN vals[1]                                    \* ser.iat[0]: summary_func is not called
     ELSE LET qs == [j \in Idx(Finite(vals)) |-> Finite(vals)[j].q] IN
          IF qs = <<>> THEN ANaN
          ELSE IF \E j \in Idx(vals) : vals[j].m = "inf" THEN ANaN           \* not modelled further (premise excludes it)
@@ -230,8 +236,12 @@ BafTable(rows, paired, tboost) ==
     IF tboost /\ paired THEN LET b == BoostedColumn(h, [j \in Idx(h) |-> BoostRow(h[j])]) IN
                              [j \in Idx(h) |-> [row |-> h[j], v |-> b[j]]]
     ELSE [j \in Idx(h) |-> [row |-> h[j], v |-> TabFreq(h[j])]]
+Mirror1(v, up) == IF v.m # "" THEN v
+                  ELSE LET sh == RAbs(RSub(v.q, RHalf)) IN AVal(IF up THEN RAdd(RHalf, sh) ELSE RSub(RHalf, sh))
 BafByRangesA(rows, paired, ranges, above, tboost) ==
-    LET t == BafTable(rows, paired, tboost) IN
+    LET t0 == BafTable(rows, paired, tboost)
+        t == IF above # -1 /\ CodePreMirrorsExplicitSide                  \* mirrored up front when a side is asked for
+             THEN [j \in Idx(t0) |-> [t0[j] EXCEPT !.v = Mirror1(t0[j].v, above = 1)]] ELSE t0 IN
     [g \in Idx(ranges) |->
         LET grp == SelectSeq(t, LAMBDA x : Overlaps(x.row, ranges[g])) IN
         GroupBafA([j \in Idx(grp) |-> grp[j].v], above)]
@@ -386,8 +396,8 @@ TableOK(rows, paired, tboost) ==
     /\ \A j \in Idx(rows) : LET r == rows[j] IN
           /\ r.s < r.e /\ r.zyg \in {0, 1, 2} /\ r.nzyg \in {0, 1, 2}
           /\ r.dp >= 0 /\ r.ac >= 0 /\ r.ndp >= 0 /\ r.nac >= 0
-          /\ r.dp <= (IF tboost /\ paired THEN 40 ELSE 1000) /\ r.ac <= 2 * Max2(r.dp, 1)
-          /\ r.ndp <= 40 \/ ~(tboost /\ paired)
+          /\ r.dp <= (IF tboost /\ paired THEN 40 ELSE 1000) /\ (r.dp > 0 => r.ac <= 2 * r.dp)
+          /\ (r.ndp <= 40 \/ ~(tboost /\ paired)) /\ (r.ndp > 0 => r.nac <= 2 * r.ndp)
           /\ (IF r.dp > 0 THEN RatClose(r.af, Rat(r.ac, r.dp)) ELSE ObsIsZero(r.af))
           /\ (paired => IF r.ndp > 0 THEN RatClose(r.naf, Rat(r.nac, r.ndp)) ELSE ObsIsZero(r.naf))
           /\ ((tboost /\ paired /\ HetKey(r, paired) = 1) => BoostRow(r).m = "")
@@ -568,8 +578,9 @@ Drift(r) ==
       [] OTHER -> FALSE
 
 (* ================================================================= known-finding triggers =========== *)
-KnownTriggers == {"NoHeterozygousRowAtAll", "SingleHetExplicitSide", "TumorBoostLabelsShifted", "NoTumourDepthAtAll",
-                  "EmptyTableLosesColumns"}
+KnownTriggers == {"NoHeterozygousRowAtAll"}
+(* inputs on which the defects repaired in 142cc54, 0d7719f, bb2305d, c778dbd showed (kept as documentation) *)
+RepairedTriggers == {"SingleHetExplicitSide", "TumorBoostLabelsShifted", "NoTumourDepthAtAll", "EmptyTableLosesColumns"}
 (* positions of the rows tumor_boost() is computed for are not their index labels *)
 LabelsShifted(rows) == \E j \in Idx(rows) : rows[j].lab # j - 1
 TriggerHolds(t, r) ==
